@@ -318,15 +318,6 @@ def signature(call, why):
 
 def run_check(tier, seed):
     V = Verdict(PROP, tier, seed)
-    # finding: lines proposed in findings/C14.txt count as known until the integrator merges them
-    # into KNOWN_FINDINGS.txt (same format, same matching by signature; nothing is written at run time)
-    try:
-        for line in open(os.path.join(VERIF, 'findings', 'C14.txt')):
-            m = re.match(r'finding:\s+property=(\S+)\s+sig=(\S+)\s+(.*)$', line.strip())
-            if m and m.group(1) == PROP and m.group(2) not in [k['sig'] for k in V.known]:
-                V.known.append(dict(sig=m.group(2), text=m.group(3)))
-    except OSError:
-        pass
     rng = SplitMix64(seed * 104729 + 14)
     V.assumptions = [
         'safe mode off (PNETCDF_SAFE_MODE=0, the default build), ncmpio driver, classic CDF format; every rank makes the same call',
